@@ -42,6 +42,7 @@ func TestVerifReplayC11(t *testing.T) {
 				for _, withEH := range []bool{false, true} {
 					for _, ehWritesHeader := range []bool{false, true} {
 					for _, boom := range []error{errors.New("boom"), fmt.Errorf("fetch: %w", context.Canceled), Error{Err: context.DeadlineExceeded, FileName: "x.templ", Line: 1, Col: 1}} {
+					for _, ctype := range []string{"text/x-verif", "text/event-stream", "application/x-ndjson"} {
 						doc := ""
 						for i := 0; i < chunks; i++ {
 							doc += fmt.Sprintf("<p>chunk%d</p>", i)
@@ -61,7 +62,7 @@ func TestVerifReplayC11(t *testing.T) {
 							}
 							return nil
 						})
-						opts := []func(*ComponentHandler){WithContentType("text/x-verif")}
+						opts := []func(*ComponentHandler){WithContentType(ctype)}
 						if status != 0 {
 							opts = append(opts, WithStatus(status))
 						}
@@ -78,14 +79,18 @@ func TestVerifReplayC11(t *testing.T) {
 						h := Handler(comp, opts...)
 						w := &verifRW{hdr: http.Header{}}
 						h.ServeHTTP(w, httptest.NewRequest("GET", "/", nil))
-						cfg := fmt.Sprintf("chunks=%d failAfter=%d (error %v) status=%d errorHandler=%v ehWritesHeader=%v", chunks, failAfter, boom, status, withEH, ehWritesHeader)
+						cfg := fmt.Sprintf("chunks=%d failAfter=%d (error %v) status=%d errorHandler=%v ehWritesHeader=%v contentType=%s", chunks, failAfter, boom, status, withEH, ehWritesHeader, ctype)
 						body := string(w.body)
 						if !fails {
 							want := 200
 							if status != 0 {
 								want = status
 							}
-							if body != doc || w.status != want || w.hdr.Get("Content-Type") != "text/x-verif" {
+							got := w.status
+							if got == 0 {
+								got = 200 // nothing written: net/http answers 200 when the handler returns
+							}
+							if body != doc || got != want || w.hdr.Get("Content-Type") != ctype {
 								fmt.Printf("REPLAY-CONFIRMED %s: successful render answered status %d content-type %q body %q, want %d %q\n", cfg, w.status, w.hdr.Get("Content-Type"), body, want, doc)
 								return
 							}
@@ -105,6 +110,7 @@ func TestVerifReplayC11(t *testing.T) {
 						}
 					}
 					}
+					}
 				}
 			}
 		}
@@ -119,7 +125,7 @@ func TestVerifReplayC11(t *testing.T) {
 		b.WriteString("stale")
 		ReleaseBuffer(b)
 	}
-	fmt.Println("REPLAY-NOT-REPRODUCED bounded search over chunk counts 0..3 x fault points x 3 kinds of error (plain, wrapping context.Canceled, templ.Error with a deadline) x status {0,201,404} x error handler configurations")
+	fmt.Println("REPLAY-NOT-REPRODUCED bounded search over chunk counts 0..3 x fault points x 3 kinds of error (plain, wrapping context.Canceled, templ.Error with a deadline) x status {0,201,404} x error handler configurations x 3 content types (incl. text/event-stream)")
 }
 `
 
